@@ -64,8 +64,11 @@ def _build_h09(ctx, mode="trace"):
             hooked += 1
     if hooked != 2:
         ctx["infra"]("cannot hook strings.Compare / bytes.Compare in %s (std sources differ from what the overlay expects)" % goroot)
+    # the shared part/recorder helpers of the main harness join the package through the overlay as well: nothing is
+    # written into the source directory, so any number of checks can build at the same time
+    shutil.copy(os.path.join(root, "h", "common_test.go"), os.path.join(ov, "zz_common_test.go"))
+    repl[os.path.join(moddir, "zz_common_test.go")] = os.path.join(ov, "zz_common_test.go")
     _json.dump({"Replace": repl}, open(os.path.join(ov, "overlay.json"), "w"))
-    shutil.copy(os.path.join(root, "h", "common_test.go"), os.path.join(moddir, "zz_common_test.go"))
     out = os.path.join(work, "h09.%s.test" % mode)
     env = dict(ctx["env"])
     cmd = ["./build.sh", out, os.path.join(ov, "overlay.json"), mode]
